@@ -1,6 +1,7 @@
 package props
 
 import (
+	"bytes"
 	"encoding/binary"
 	"encoding/hex"
 	"fmt"
@@ -209,6 +210,29 @@ func c07Jobs(x *mon.Ctx, base *world.World) []*world.Case {
 			fullID(w)
 			set(w, get(w)+`","x":"`)
 			emit(w, "badhex-"+f, "injected-member", "")
+		}
+	}
+	// masks shorter than the field whose covered part matches and whose value is what a zero-extended mask would produce:
+	// only the length check stands between these and acceptance
+	for _, f := range []struct {
+		name     string
+		off, len int
+	}{{"miscselect", 0x10, 4}, {"attributes", 0x30, 16}} {
+		for _, n := range []int{0, 1, f.len / 2, f.len - 1} {
+			w := base.Clone()
+			fullID(w)
+			mask := bytes.Repeat([]byte{0xff}, n)
+			val := make([]byte, f.len)
+			copy(val, qr[f.off:f.off+n]) // covered bytes equal the report, uncovered bytes zero
+			for _, valLen := range []int{f.len, n} {
+				v := val[:valLen]
+				if f.name == "miscselect" {
+					w.Qe.MiscMask, w.Qe.Misc = hex.EncodeToString(mask), hex.EncodeToString(v)
+				} else {
+					w.Qe.AttrMask, w.Qe.Attr = hex.EncodeToString(mask), hex.EncodeToString(v)
+				}
+				emit(w.Clone(), "short-mask-consistent-value/"+f.name, fmt.Sprintf("mask%d-value%d", n, valLen), "reject")
+			}
 		}
 	}
 	// levels: 1 and 2 levels exhaustively over {below, equal, above} x 7 statuses, then random 3-4
